@@ -44,20 +44,24 @@ Parts(r, pst) ==   \* the conjuncts of L1 with a name each
       p == Abs(IF Starts(r) THEN EmptySt ELSE pst, I, 0)
       q == Abs(r.st, I, r.t)
       hx == HX(I)
-      rev == ~Starts(r) /\ r.a = "revive" /\ r.id \in I /\ p.lv[r.id] = "recycled"
+      X   == IF r.a = "revive" THEN {x \in Range(r.ids) \cap I : p.lv[x] = "recycled"} ELSE {}
+      rev == ~Starts(r) /\ r.a = "revive" /\ X # {}
   IN  <<
     <<"visibility", VisOk(r.st)>>,
     <<"lifecycle", Starts(r) \/ LifecycleOk(p, q, hx)>>,
-    <<"revive-incomplete", (rev /\ r.res = "ok") => ReviveOk(p, q, hx, r.id)>>,
-    <<"revive-refused", (rev /\ Unobstructed(p, hx, r.id)) => r.res = "ok">> >>
+    <<"revive-incomplete", (rev /\ r.res = "ok") => ReviveOkSet(p, q, hx, X)>>,
+    <<"revive-refused", (rev /\ X = Range(r.ids) /\ Unobstructed(p, hx, X)) => r.res = "ok">> >>
 LineL1(r, pst) == \A i \in 1..4 : Parts(r, pst)[i][2]
 \* a revive that restored exactly the memberships the entry's stored directmemberof listed when it was
 \* deleted, but not a group that listed it as member: the inexactness is upstream (property C17)
 Unrecorded(r, pst) ==
-  LET I == IdsOf(r, pst)  p == Abs(pst, I, 0)  q == Abs(r.st, I, r.t)  hx == HX(I)  x == r.id
-      miss == {g \in hx.want[x] : q.lv[g] = "live" /\ x \notin q.member[g]}
-  IN  /\ q.lv[x] = "live" /\ miss # {} /\ miss \cap hx.dm[x] = {}
-      /\ \A d \in hx.dep[x] : (p.lv[d] = "recycled" /\ p.casc[d] = {x}) => (q.lv[d] = "live" /\ x \in q.refers[d])
+  LET I == IdsOf(r, pst)  p == Abs(pst, I, 0)  q == Abs(r.st, I, r.t)  hx == HX(I)
+      X == {x \in Range(r.ids) \cap I : p.lv[x] = "recycled"}
+      miss(x) == {g \in hx.want[x] : q.lv[g] = "live" /\ x \notin q.member[g]}
+  IN  /\ \E x \in X : miss(x) # {}
+      /\ \A x \in X :
+            /\ q.lv[x] = "live" /\ miss(x) \cap hx.dm[x] = {}
+            /\ \A d \in hx.dep[x] : (p.lv[d] = "recycled" /\ p.casc[d] = {x}) => (q.lv[d] = "live" /\ x \in q.refers[d])
 Sig(r, pst) == LET P == Parts(r, pst) i == CHOOSE j \in 1..4 : ~P[j][2] IN
   IF i = 3 /\ Unrecorded(r, pst) THEN "revive-incomplete membership-unrecorded"
   ELSE P[i][1] \o " after=" \o r.a
@@ -66,7 +70,7 @@ Sig(r, pst) == LET P == Parts(r, pst) i == CHOOSE j \in 1..4 : ~P[j][2] IN
 Predict(r, p0, q, hx) ==
   LET p == [p0 EXCEPT !.at = hx.ts]  a == r.a  now == r.t IN
   IF a = "delete" THEN Delete(p, Range(r.ids) \cap p.ids, now)
-  ELSE IF a = "revive" THEN (IF r.id \in p.ids THEN Revive(p, r.id, now) ELSE R(p, "ok"))
+  ELSE IF a = "revive" THEN Revive(p, Range(r.ids) \cap p.ids, now)
   ELSE IF a = "purge_recycled" THEN R(PurgeRecycled(p, now), "ok")
   ELSE IF a = "purge_tombstones" THEN R(PurgeTombstones(p, now), "ok")
   ELSE IF a \in {"create_group", "create_dyn", "create_person", "create_svc", "create_cert", "create_oa2", "create_batch"} THEN
